@@ -116,6 +116,46 @@ def _polygon(case, rec, planar):
     rec.nontrivial = bool(nt)
 
 
+@st.composite
+def _fcase(draw):
+    c = draw(_pcase(True))
+    c["far"] = draw(st.sampled_from([3.0, 4.0, 5.0, 6.0, 7.0, 7.5, 8.0]))
+    c["fdir"] = draw(st.sampled_from([[1.0, 1.0], [1.0, 0.0], [0.0, -1.0], [-0.6, 0.8], [0.28, -0.96]]))
+    c["z"] = draw(st.sampled_from([0.0, 0.0, 1.0, -3.5]))
+    return c
+
+
+def _polygon_far(case, rec):
+    """The same question 10^3..10^8 polygon sizes away from the origin (in the polygon's own plane z = const)."""
+    xy0 = gp.build_polygon_xy(case["poly"])
+    size = 2 * float(np.max(np.linalg.norm(xy0 - xy0.mean(axis=0), axis=1)))
+    P0, kinds = points.points_for_polygon(case["pts"], xy0, size)
+    T = 10.0 ** case["far"] * size * np.asarray(case["fdir"])
+    xy, P2 = xy0 + T, P0 + T  # rounded to the grid of doubles out there: these doubles *are* the input
+    L = float(np.max(np.abs(xy)))
+    if not geom.is_simple_polygon_2d(xy) or len(np.unique(xy, axis=0)) != len(xy):
+        rec.label("outside_domain:rounding_broke_simplicity")
+        return
+    want = geom.crossing_number_inside(P2, xy)
+    dist = geom.segment_distance_2d(P2, xy, np.roll(xy, -1, axis=0)).min(axis=1)
+    # the class rotates coordinates of size L into its frame: positions are only known to a few eps*L
+    dist = np.where(dist > 1e3 * np.finfo(float).eps * L, dist, 0.0)
+    z = case["z"] * size
+    V = np.column_stack([xy, np.full(len(xy), z)])
+    P3 = np.column_stack([P2, np.full(len(P2), z)])
+    convex = polygon_is_convex_ccw(xy0)
+    cls = "ConvexPolygon" if (convex and case["use_convex_cls"]) else "Polygon"
+    shape = call(getattr(S, cls), V.copy())
+    sig = {"cls": cls, "plane": "xy", "orient": "ccw", "far": "1e%g" % case["far"]}
+    rec.concrete = {"vertices": V, "points": P3[:5]}
+    if isinstance(shape, Raised):
+        rec.fail("construct", dict(sig, type=shape.type), msg=shape.msg)
+        return
+    nt = _finish(rec, shape, P3, P2, kinds, want, dist, size, sig, case)
+    rec.label(cls, "far:1e%g" % case["far"], "nonconvex" if not convex else None)
+    rec.nontrivial = bool(nt)
+
+
 def _curved(case, rec, cls):
     ax = case["axes"]["axes"]
     scale = max(ax)
@@ -155,6 +195,9 @@ def clauses():
                rule="Polygon/ConvexPolygon, arbitrary embedding", floors={"near_boundary": 0.25, "tilted": 0.3, "cw": 0.2, "nonconvex": 0.25}),
         Clause("polygon_xy_plane", _pcase(True), lambda c, r: _polygon(c, r, True), quick=3500, thorough=60000,
                rule="polygon in the xy-plane; also (N,2) points", floors={"aligned": 0.15, "points2d": 0.9, "lattice_aligned": 0.05}),
+        Clause("polygon_far_from_origin", _fcase(), _polygon_far, quick=1500, thorough=20000,
+               rule="polygon and queries translated 1e3..1e8 sizes from the origin; probes closer to the boundary than 1e3 eps L are not judged",
+               floors={"near_boundary": 0.2}),
         Clause("circle", _ccase(1), lambda c, r: _curved(c, r, "Circle"), quick=1200, thorough=20000, rule="Circle",
                floors={"other_quadrant": 0.4}),
         Clause("ellipse", _ccase(2), lambda c, r: _curved(c, r, "Ellipse"), quick=1500, thorough=25000, rule="Ellipse",
